@@ -13,9 +13,12 @@ import (
 	"fmt"
 	"hash/fnv"
 	"os"
+	"os/signal"
 	"regexp"
+	"runtime/pprof"
 	"strconv"
 	"strings"
+	"syscall"
 	"time"
 
 	"verifharness/internal/vlib"
@@ -57,6 +60,9 @@ func main() {
 		if cfg.Thorough() {
 			to = 12 * time.Minute
 		}
+		if v, err := strconv.Atoi(os.Getenv("VERIF_C07_CHILD_TIMEOUT_S")); err == nil && v > 0 {
+			to = time.Duration(v) * time.Second // self-test of the watchdog path
+		}
 		specs = append(specs, vlib.ChildSpec{Name: fmt.Sprintf("%s-%03d", cs.Kind, i), Bin: bin, Spec: cs, Timeout: to, Race: cs.Kind == "race"})
 	}
 	raceSeen := map[string]bool{}
@@ -70,7 +76,8 @@ func main() {
 			triageRace(cfg, rep, &rr, raceSeen)
 		}
 		if c.TimedOut {
-			rep.Inconclusive("child %s hit the %s watchdog; stderr tail: %s", c.Name, specs[i].Timeout, tail(c.StderrTail(1200), 1200))
+			rep.Count("children_watchdog", 1)
+			rep.Inconclusive("child %s hit the %s watchdog (partial log of the running history analysed: %v); stderr tail: %s", c.Name, specs[i].Timeout, len(c.Out) > 0, tail(c.StderrTail(600), 600))
 			return
 		}
 		if !c.Done {
@@ -285,6 +292,20 @@ func childMain(dir string) {
 		fmt.Println("cannot start module system:", err)
 		os.Exit(3)
 	}
+	// The parent's watchdog sends SIGQUIT: do not throw the running history away -
+	// decide what can be decided on its partial event log (the safety oracles need no
+	// quiescence), write the batch, then leave the goroutine dump the watchdog wants.
+	sigq := make(chan os.Signal, 1)
+	signal.Notify(sigq, syscall.SIGQUIT)
+	go func() {
+		<-sigq
+		if res := w.partial(); res != nil {
+			judge(res, b, cs.Kind)
+		}
+		b.Finish(dir)
+		_ = pprof.Lookup("goroutine").WriteTo(os.Stderr, 2)
+		os.Exit(3)
+	}()
 	rounds := cs.Repeat
 	if rounds < 1 {
 		rounds = 1
@@ -370,9 +391,18 @@ func judge(res *histResult, b *vlib.Batch, build string) {
 	if res.Failed != "" {
 		inconcl = append(inconcl, res.Failed)
 	}
-	if !res.Quiescent {
-		inconcl = append(inconcl, "no logical quiescence within the watchdog")
-	} else {
+	switch {
+	case res.Aborted != "":
+		// stopped by the online monitor; the safety oracles above decide on the log so far
+		b.Count("histories_stopped_online", 1)
+		if len(fs) == 0 {
+			inconcl = append(inconcl, "stopped online ("+res.Aborted+") but no oracle explains it")
+		}
+	case !res.Quiescent:
+		if !res.Partial {
+			inconcl = append(inconcl, "no logical quiescence within the watchdog")
+		}
+	default:
 		b.Count("histories_quiescent", 1)
 		fs = append(fs, v.checkT4()...)
 		switch h.Class {
@@ -405,7 +435,7 @@ func judge(res *histResult, b *vlib.Batch, build string) {
 			evs = evs[:600]
 		}
 		for _, f := range fs {
-			b.Violation(f.Sig, f.What, map[string]any{"hist": h, "findings": fs, "events": evs, "build": build, "quiescent": res.Quiescent})
+			b.Violation(f.Sig, f.What, map[string]any{"hist": h, "findings": fs, "events": evs, "build": build, "quiescent": res.Quiescent, "stopped_online": res.Aborted, "partial_log_after_watchdog": res.Partial})
 		}
 	} else if nexec >= 2 {
 		b.Sample(map[string]any{"class": h.Class, "plan": h.Plan, "tasks": len(h.Tasks), "executions": nexec, "events": len(res.Events), "starts": startOrder(v)})
